@@ -14,7 +14,7 @@ META = {
     "level": "translation_validation",
     "engine": "E1 artifact-level SMT: io_map nodes of the unrolled circuit proved equal to the t+1-fold symbolic iteration of the step function, all initial states and input sequences",
     "hashseeds": {"quick": [0, 1], "thorough": [0, 1, 2, 3, 4, 5, 6, 7]},
-    "shards": {"quick": 8, "thorough": 2},
+    "shards": {"quick": 8, "thorough": 4},
     "bounds": {
         "quick": "unroll: F-shape + 20 random DAGs, up to 6 injective output->input pairings (1..3 pairs) each, n=1..4; sequential_unroll: 3 sequential circuits (1,2,3 flops; ff(clk,d,q) and dff(CK,D,Q) boxes) x n=1..4 x add_flop_outputs x initial_values in {None,'0','1',dict} x remove_unloaded x ignore_pins in {None, clock pin}; ALL initial states and input sequences",
         "thorough": "unroll: 150 random DAGs, up to 12 pairings, n=1..6; sequential_unroll n=1..6, dict initial values including 'x'",
